@@ -26,7 +26,7 @@ ASSUMPTIONS = ["controls with a sample variance below 1e-8, or collinear in the 
                "to an O_APPEND file, the multiset of logged values is the reference (which worker simulates which path is not prescribed)"]
 REQUIRED_COUNTERS = ["price_checks", "stddev_checks", "each_path_once_checks", "control_variate_checks", "cv_mean_invariance",
                      "cv_variance_checks", "vector_payoff_cases", "spot_statistics_cases", "control_variates_object_reused",
-                     "concentrated_sample_cases", "symmetric_path_sets", "same_engine_repricings", "worker_process_runs", "worker_runs_with_two_or_more_simulating_processes"]
+                     "concentrated_sample_cases", "symmetric_path_sets", "same_engine_repricings", "discount_factor_above_one_cases", "zero_notional_cases", "worker_process_runs", "worker_runs_with_two_or_more_simulating_processes"]
 MIN_NONTRIVIAL = {"quick": 100, "thorough": 1500}
 THOROUGH_ROUNDS = 20      # the thorough tier runs the generators this many times (different seeds)
 
@@ -198,8 +198,13 @@ def run_case(case, R):
         return
     rng = np.random.default_rng(case["seed"])
     N = case["N"]
-    rate, T = float(rng.uniform(0, 0.08)), float(rng.uniform(0.2, 3.0))
+    rate, T = float(rng.uniform(-0.04, 0.08)), float(rng.uniform(0.2, 3.0))          # (negative rates: discount factors above one)
     notional = float(rng.choice([1.0, 2.5, -3.0, 1e3]))
+    if case["seed"] % 11 == 0:
+        notional = 0.0                                                                # (a notional like any other)
+        R.hit("zero_notional_cases")
+    if rate < 0:
+        R.hit("discount_factor_above_one_cases")
     # unique terminal values: i-th path -> base + i * step + tiny id
     s = np.sort(rng.lognormal(0.0, 0.4, size=N)) * 100.0
     s = s + np.arange(N) * 1e-6
